@@ -58,24 +58,25 @@ Definition is_adjacent_to (a b : rng) : bool :=
 Definition v_allows (this other : version) : bool :=           (* Version.allows *)
   let other := if negb (is_local this) && is_local other then without_local other else other in
   veqb this other.
-Definition rr_allows (r : rng) (other : version) : bool :=     (* VersionRange.allows *)
-  (match rmin r with
-   | Some this =>
-     let o := if negb (imin r) && negb (is_postrelease this) && is_postrelease other
-              then without_postrelease other else other in
-     let o := if negb (is_local this) && is_local o then without_local o else o in
-     if vltb o this then false
-     else if negb (imin r) && veqb o this then false
-     else true
-   | None => true end)
-  &&
-  (match allowed_max r, rmax r with
-   | Some this, Some mx =>
-     let o := if negb (is_local this) && is_local other then without_local other else other in
-     if vgtb o this then false
-     else if negb (imax r) && (veqb o mx || veqb o this) then false
-     else true
-   | _, _ => true end).
+Definition rr_allows_lo (r : rng) (other : version) : bool :=     (* VersionRange.allows, lower half *)
+  match rmin r with
+  | Some this =>
+    let o := if negb (imin r) && negb (is_postrelease this) && is_postrelease other
+             then without_postrelease other else other in
+    let o := if negb (is_local this) && is_local o then without_local o else o in
+    if vltb o this then false
+    else if negb (imin r) && veqb o this then false
+    else true
+  | None => true end.
+Definition rr_allows_hi (r : rng) (other : version) : bool :=     (* upper half *)
+  match allowed_max r, rmax r with
+  | Some this, Some mx =>
+    let o := if negb (is_local this) && is_local other then without_local other else other in
+    if vgtb o this then false
+    else if negb (imax r) && (veqb o mx || veqb o this) then false
+    else true
+  | _, _ => true end.
+Definition rr_allows (r : rng) (other : version) : bool := rr_allows_lo r other && rr_allows_hi r other.
 Definition r_allows (r : rng) (v : version) : bool :=
   match r with RV x => v_allows x v | RR _ _ _ _ => rr_allows r v end.
 
